@@ -864,7 +864,7 @@ func runC07(r *Run) {
 	defer c07FileStore()()
 	r.TierRan("api")
 	legacyDrainWait = 15 * time.Millisecond // many tunnels at once: give the IN handler time to reach its Drain
-	rounds := r.N(36, 600)
+	rounds := r.N(36, 300)
 	maxN := r.N(12, 64)
 	for round := 0; round < rounds; round++ {
 		burst := round%3 == 2
